@@ -2,6 +2,7 @@
 # usage: tools/seedtest.sh <patch> <ID> [<ID>...]   — apply a seeded change to /repo, run the checks, undo it.
 patch="$1"; shift
 cd /verif
+bk=$(mktemp -d /tmp/evbk.XXXXXX); cp evidence/*.json "$bk"/ 2>/dev/null   # evidence of seeded runs is never kept
 git -C /repo apply "$patch" || { echo "patch does not apply"; exit 2; }
 for id in "$@"; do
   out=$(./check "$id" 2>&1 | grep -E "VIOLATION|^OK|KNOWN|INFRA" | head -3)
@@ -20,3 +21,4 @@ PY
 done
 git -C /repo checkout -- .
 python3 tools/extract.py >/dev/null 2>&1
+cp "$bk"/*.json evidence/ 2>/dev/null; rm -rf "$bk"
